@@ -63,7 +63,7 @@ def model_checks(ctx):
     mc(ctx, "strip_lists_n2", "AllRasters(2, %s, {0, 2, NAN})" % z6, lists, variant='{"strip"}')
     if thorough:
         mc(ctx, "asis_n4", "AllRasters(4, %s, {0, 2, NAN})" % z5, s6)
-        mc(ctx, "asis_multiset5", "MultisetRasters(5, %s, %s, <<4, 1, 5, 2, 3>>)" % (U.tla_seq(Z5), U.tla_seq(V5)), s6)
+        mc(ctx, "asis_multiset5", "MultisetRasters(5, %s, <<0, 2, NAN, PINF>>, <<4, 1, 5, 2, 3>>)" % U.tla_seq(Z5), s6)
         mc(ctx, "strip_n3", "AllRasters(3, %s, %s)" % (z6, v5), s12, variant='{"strip"}')
         mc(ctx, "strip_lists_n3", "AllRasters(3, %s, {0, 2, NAN})" % z6, lists, variant='{"strip"}')
         mc(ctx, "strip_6cells", "FixedValueRasters(6, %s, %s)" % (z6, six), "Sels({NONE, 2}, {<<4, 0-2>>})",
